@@ -400,7 +400,11 @@ func (r *runner) execOp(i int, op *Op, gate chan struct{}) {
 			r.skip(ot, "no pending call")
 			return
 		}
-		c.cancel = s.push(&outItem{msg: &wamp.Cancel{Request: c.req, Options: wamp.Dict{}}, desc: "CANCEL", gate: gate, opTr: ot})
+		copts := wamp.Dict{}
+		if op.Mode != "" {
+			copts["mode"] = op.Mode
+		}
+		c.cancel = s.push(&outItem{msg: &wamp.Cancel{Request: c.req, Options: copts}, desc: "CANCEL " + op.Mode, gate: gate, opTr: ot})
 	case "leave":
 		r.mu.Lock()
 		s.leaving, s.expGone = true, "left"
